@@ -390,6 +390,7 @@ func (u *Unit) useLemma(name string, pkg *types.Package) error {
 	x := &Executor{u: u}
 	vars := map[string]Val{}
 	var binders []string
+	var wfReqs []string
 	for _, p := range lm.Params {
 		ty, err := u.resolveType(p.Type, lpkg)
 		if err != nil {
@@ -398,10 +399,14 @@ func (u *Unit) useLemma(name string, pkg *types.Package) error {
 		n := "l$" + p.Name
 		vars[p.Name] = Val{T: n, Ty: ty}
 		binders = append(binders, fmt.Sprintf("(%s %s)", n, u.sortOf(ty)))
+		if wf := u.wfValue(n, ty, 0); wf != "true" && !lm.Trusted {
+			wfReqs = append(wfReqs, wf)
+		}
 	}
 	hs, ohs := map[string]string{}, map[string]string{}
 	env := &Env{x: x, u: u, vars: vars, bound: map[string]Val{}, pkg: lpkg, heapSyms: hs, oldHeapSyms: ohs}
 	var reqs, enss []string
+	reqs = append(reqs, wfReqs...)
 	for _, r := range lm.Requires {
 		t, err := env.Eval(r.E)
 		if err != nil {
@@ -502,6 +507,9 @@ func (eng *Engine) VerifyLemma(lm *Lemma) *Unit {
 		}
 		n := q("lp$" + p.Name)
 		u.declare(n, u.sortOf(ty))
+		if wf := u.wfValue(n, ty, 0); wf != "true" {
+			u.assume(wf)
+		}
 		vars[p.Name] = Val{T: n, Ty: ty}
 		ps = append(ps, pinfo{p.Name, ty})
 	}
